@@ -2,7 +2,9 @@
 
 Functions under contract (real AST, re-read each run):
   html_extractor._HtmlTreeBuilder.__init__/handle_starttag/handle_endtag/handle_data/handle_comment/get_tree
-  epub_extractor._XhtmlTextExtractor.__init__/handle_starttag/handle_endtag/handle_data
+  epub_extractor._XhtmlTextExtractor.__init__/handle_starttag/handle_endtag/handle_data/get_text (get_text: round 7)
+  mhtml_extractor._find_html_part/_decode_content (round 7, abstract MIME view: contracts/C17_glue.py), _extract_from_mhtml, read_mhtml;
+  html_extractor.read_html, msg_email_extractor._looks_like_html/_html_to_text/read_msg_format_mail, epub_extractor._extract_chapter
 
 Spec (ghost state, written from the property statement, DESIGN 3/C17): a region
 rho in {None} + (tag, depth).  A removable, non-void element opens a region;
@@ -286,7 +288,21 @@ class C17Executor(Executor):
             lo = self.ev(sl.lower, st)[0][1] if sl.lower is not None else None
             if sl.upper is None and isinstance(lo, VInt) and lo.const() is not None:
                 return [(st, VExt("Bytes", G.BCUT(base.t, z3.IntVal(lo.const()))))]
+            hi = self.ev(sl.upper, st)[0][1] if sl.upper is not None and sl.lower is None else None
+            if isinstance(hi, VInt) and hi.const() is not None and hi.const() >= 0:
+                return [(st, VExt("Bytes", G.BHEAD(base.t, z3.IntVal(hi.const()))))]      # round 7: x[:k], a function of x (never x itself)
             return [(st, VExt("Bytes"))]          # some other part of the bytes: not the document any more
+        o = self._ol(st, base)
+        if o is not None and sl.step is None:
+            # round 7: a slice of a list of symbolic length is SOME list of the same kind -- not the list itself
+            for b_ in (sl.lower, sl.upper):
+                if b_ is not None:
+                    self.ev(b_, st)
+            v, blen = mk_olist(self, st, fresh_name("slice"), o.data["ekind"])
+            st.heap[v.ref].fresh = True
+            st.heap[v.ref].data["slice_of"] = base.ref
+            st.assume(z3.And(blen >= 0, blen <= o.data["blen"] + len(o.data["tail"])))
+            return [(st, v)]
         return super().get_slice(st, base, sl, node)
 
     def _pure_comprehension(self, n):
@@ -322,6 +338,9 @@ class C17Executor(Executor):
         return None
 
     def construct(self, st, t, args, kwargs, node):
+        if t.name == "str" and len(args) == 1 and not kwargs and isinstance(args[0], VExt) and args[0].sort == "HeaderObj":
+            from contracts import C17_glue as G
+            return [(st, VStr(G.HTEXT(args[0].t)))]       # str(<Header object>): total, a function of the object
         if t.name == "dict" and len(args) == 1 and not kwargs and \
                 ((isinstance(args[0], VUnk) and args[0].tag == "attr-pairs") or (isinstance(args[0], VExt) and args[0].sort in ("AttrList", "AttrDict"))):
             return [(st, VExt("AttrDict"))]        # dict(<(name, value) pairs of the attribute list>): cannot raise
@@ -340,10 +359,63 @@ class C17Executor(Executor):
         return super().call(st, f, args, kwargs, node)
 
     def e_GeneratorExp(self, n, st):
-        return self._opaque_comp(n, st) or super().e_GeneratorExp(n, st)
+        return self._str_map_comp(n, st) or self._opaque_comp(n, st) or super().e_GeneratorExp(n, st)
 
     def e_ListComp(self, n, st):
-        return self._opaque_comp(n, st) or super().e_ListComp(n, st)
+        return self._str_map_comp(n, st) or self._opaque_comp(n, st) or super().e_ListComp(n, st)
+
+    def symbolic_for(self, s, st, it):
+        """round 7: `for piece in <open list of str>: acc.append(piece.<total str method>())` with `acc` an empty local list is the
+        comprehension `[piece.m() for piece in ...]` written as a loop (same value, same order): `acc` becomes the mapped list."""
+        o = self._ol(st, it)
+        if o is not None and o.data["ekind"] == "str" and not o.data["tail"] and not s.orelse and len(s.body) == 1 and isinstance(s.target, ast.Name):
+            b = s.body[0]
+            c_ = b.value if isinstance(b, ast.Expr) and isinstance(b.value, ast.Call) else None
+            if c_ is not None and isinstance(c_.func, ast.Attribute) and c_.func.attr == "append" and isinstance(c_.func.value, ast.Name) \
+                    and len(c_.args) == 1 and not c_.keywords:
+                e = c_.args[0]
+                if isinstance(e, ast.Call) and isinstance(e.func, ast.Attribute) and isinstance(e.func.value, ast.Name) and e.func.value.id == s.target.id \
+                        and not e.args and not e.keywords and e.func.attr in ("strip", "lstrip", "rstrip", "lower", "upper", "casefold"):
+                    acc = st.lookup(c_.func.value.id)
+                    ao = st.heap.get(acc.ref) if isinstance(acc, VRef) else None
+                    if ao is not None and ao.kind == "list" and ao.data == [] and ao.fresh:
+                        v, blen = mk_olist(self, st, fresh_name("mapped"), "str")
+                        newo = st.heap[v.ref]
+                        newo.fresh = True
+                        if o.data.get("of") is not None:
+                            newo.data["of"] = STR_MAP(z3.StringVal(e.func.attr), o.data["of"])
+                        st.assume(blen == o.data["blen"])
+                        st.heap[acc.ref] = newo
+                        from pyvc.symex import Outcome
+                        outs = []
+                        for s3 in self.assign(s.target, VStr(z3.String(fresh_name("piece"))), st):
+                            outs.append(Outcome("fall", s3))
+                        return outs
+        return super().symbolic_for(s, st, it)
+
+    def _str_map_comp(self, n, st):
+        """round 7: `[x.strip() for x in <list of str of symbolic length>]` -- a total str method on every element: again a list of
+        str; when the source list is a known function of a text (`text.split(sep)`), the result is one too (`of`)."""
+        if len(n.generators) != 1 or n.generators[0].ifs or n.generators[0].is_async or not isinstance(n.generators[0].target, ast.Name):
+            return None
+        e = n.elt
+        if not (isinstance(e, ast.Call) and isinstance(e.func, ast.Attribute) and isinstance(e.func.value, ast.Name)
+                and e.func.value.id == n.generators[0].target.id and not e.args and not e.keywords
+                and e.func.attr in ("strip", "lstrip", "rstrip", "lower", "upper", "casefold")):
+            return None
+        r = self.ev(n.generators[0].iter, st)
+        if len(r) != 1:
+            return None
+        s2, it = r[0]
+        o = self._ol(s2, it)
+        if o is None or o.data["ekind"] != "str" or not all(isinstance(x, VStr) for x in o.data["tail"]):
+            return None
+        v, blen = mk_olist(self, s2, fresh_name("mapped"), "str")
+        s2.heap[v.ref].fresh = True
+        s2.assume(blen == o.data["blen"] + len(o.data["tail"]))
+        if o.data.get("of") is not None and not o.data["tail"]:
+            s2.heap[v.ref].data["of"] = STR_MAP(z3.StringVal(e.func.attr), o.data["of"])
+        return [(s2, v)]
 
     def on_yield(self, st, v, node):
         """A yield inside a loop that is cut by an invariant is invisible in the function's final state: the contract's
@@ -540,7 +612,19 @@ class C17Executor(Executor):
         super().__init__(*a, **kw)
         self.opaque_str = opaque_str        # only for the contract that asks for it (EXECUTOR_KW); other users are unaffected
 
+    def b_isinstance(self, st, args, kwargs, node):
+        # round 7: an abstract byte string is a `bytes` (the engine answers an unconstrained Bool for abstract values)
+        from pyvc.values import VType
+        v, t = args
+        if isinstance(v, VExt) and v.sort == "Bytes":
+            types = [x.name for x in (t.items if isinstance(t, VTuple) else [t]) if isinstance(x, VType)]
+            if len(types) == len(t.items if isinstance(t, VTuple) else [t]):
+                return [(st, VBool("bytes" in types))]
+        return super().b_isinstance(st, args, kwargs, node)
+
     def contains(self, st, container, item, node):
+        if isinstance(container, VExt) and container.sort == "Bytes":
+            return [(st, VBool(z3.Bool(fresh_name("bytes_contains"))))]   # round 7: substring test on abstract bytes: total, either answer
         if isinstance(container, VExt) and container.sort == "AttrDict":
             return [(st, VBool(z3.Bool(fresh_name("has_attr"))))]       # round 6: any attribute may or may not be present
         if self.opaque_str and isinstance(container, VStr) and isinstance(item, VStr) and container.const() is None:
@@ -548,6 +632,8 @@ class C17Executor(Executor):
         return super().contains(st, container, item, node)
 
     def str_method(self, st, s, name, args, kwargs, node):
+        if name == "encode" and "str.encode" in self.reg.ext_models:
+            return self.reg.ext_models["str.encode"](self, st, [s] + list(args), kwargs, node)
         if self.opaque_str and name == "startswith" and s.const() is None and len(args) == 1:
             cands = list(args[0].items) if isinstance(args[0], VTuple) else [args[0]]
             if cands and all(isinstance(x, VStr) for x in cands):
@@ -575,6 +661,9 @@ EXECUTOR_KW.update({t: dict(_G.GLUE_KW) for t in _G.TARGETS})
 # round 6: which strategy decides in _extract_from_mhtml -- helpers are NOT executed in place (their result is any value; the clause is
 # about the order of the strategies, and two inlined scans multiply to > 20000 paths); a low path limit keeps `unknown` cheap
 EXECUTOR_KW[f"{MHTML}::_extract_from_mhtml"] = dict(_G.GLUE_KW, inline_local=False, max_paths=3000)
+# round 7: the two helpers below it, verified over the abstract MIME view (callees by contract, never in place)
+EXECUTOR_KW[f"{MHTML}::_find_html_part"] = dict(_G.GLUE_KW, inline_local=False)
+EXECUTOR_KW[f"{MHTML}::_decode_content"] = dict(_G.GLUE_KW, inline_local=False)
 
 
 def m_lower(ex, st, args, kwargs, node):
@@ -583,9 +672,17 @@ def m_lower(ex, st, args, kwargs, node):
     return [(st, VStr(c.lower()) if c is not None else VStr(LOWER(s.t)))]
 
 
+STR_SPLIT = z3.Function("str_split_pieces", S, S, S)        # the pieces of text.split(sep), as one opaque value
+STR_MAP = z3.Function("str_pieces_mapped", S, S, S)         # [piece.<method>() for piece in pieces]
+STR_JOIN = z3.Function("str_join_pieces", S, S, S)          # sep.join(pieces)
+RE_SUB = z3.Function("re_sub", S, S, S, S)                  # <compiled str regex>.sub(repl, text)
+
+
 def m_split(ex, st, args, kwargs, node):
     v, blen = mk_olist(ex, st, fresh_name("split"), "str")
     st.heap[v.ref].fresh = True
+    if len(args) == 2 and not kwargs and isinstance(args[0], VStr) and isinstance(args[1], VStr):
+        st.heap[v.ref].data["of"] = STR_SPLIT(args[0].t, args[1].t)
     st.assume(blen >= (1 if len(args) >= 2 and not isinstance(args[1], VNoneT) else 0))     # with a separator: never empty
     return [(st, v)]
 
@@ -594,18 +691,83 @@ def m_join(ex, st, args, kwargs, node):
     it = args[1]
     o = st.heap.get(it.ref) if isinstance(it, VRef) else None
     if o is not None and o.kind == "olist" and o.data["ekind"] == "str" and all(isinstance(x, VStr) for x in o.data["tail"]):
-        return [(st, VStr(z3.String(fresh_name("join"))))]
+        if o.data.get("of") is not None and not o.data["tail"] and isinstance(args[0], VStr):
+            return [(st, VStr(STR_JOIN(args[0].t, o.data["of"])))]
+        jv = z3.String(fresh_name("join"))
+        # round 7 ghost event: WHICH list was joined (reference, length, appended tail, separator) -> `get_text` contract
+        st.ghost["joins"] = st.ghost.get("joins", ()) + ((jv, it.ref, o.data["blen"], tuple(o.data["tail"]), args[0].const() if isinstance(args[0], VStr) else None),)
+        return [(st, VStr(jv))]
     ex.exc_any(st.fork(), f"{ex.loc(node)} join of a list not known to hold only str")
     return [(st, VStr(z3.String(fresh_name("join"))))]
 
 
+def ext_sort_(name):
+    from pyvc.values import ext_sort
+    return ext_sort(name)
+
+
+RE_ID = z3.Function("regex_id", ext_sort_("StrRe"), S)
+
+
+def get_text_regexes(repo=None):
+    """Module-level `NAME = re.compile(<str constant>, ...)` of the EPUB module that `get_text` uses as `NAME.sub(<str constant>, x)`
+    and that nothing else in the module uses (so the model below is seen by the get_text contract only)."""
+    mod = loader.module(EPUB, repo)
+    fn = mod.functions.get(f"{ECLS}.get_text")
+    if fn is None:
+        return []
+    used = {x.func.value.id for x in ast.walk(fn) if isinstance(x, ast.Call) and isinstance(x.func, ast.Attribute) and x.func.attr == "sub"
+            and isinstance(x.func.value, ast.Name) and len(x.args) == 2 and isinstance(x.args[0], ast.Constant) and isinstance(x.args[0].value, str)}
+    out = []
+    for nm in sorted(used):
+        v = mod.assigns.get(nm)
+        if not (isinstance(v, ast.Call) and ast.unparse(v.func) in ("re.compile", "compile") and v.args and isinstance(v.args[0], ast.Constant)
+                and isinstance(v.args[0].value, str)):
+            continue
+        elsewhere = [x for x in ast.walk(mod.tree) if isinstance(x, ast.Name) and x.id == nm and isinstance(x.ctx, ast.Load)
+                     and not (fn.lineno <= x.lineno <= fn.end_lineno)]
+        if not elsewhere:
+            out.append(nm)
+    return out
+
+
+def m_re_sub(ex, st, obj, args, kwargs, node):
+    """<compiled str pattern>.sub(repl, text) with a constant replacement without group references: total, a function of the text."""
+    if len(args) == 2 and not kwargs and all(isinstance(a, VStr) for a in args) and args[0].const() is not None and "\\" not in args[0].const():
+        return [(st, VStr(RE_SUB(RE_ID(obj.t), args[0].t, args[1].t)))]
+    ex.exc_any(st.fork(), f"{ex.loc(node)} regex sub")
+    return [(st, VStr(z3.String(fresh_name("re_sub"))))]
+
+
+def m_re_sub_fn(ex, st, args, kwargs, node):
+    """re.sub(<constant pattern>, <constant replacement without group references>, text) inside `get_text`: total, a function of the
+    text (the pattern is compiled natively once: a pattern `re` rejects raises at the call).  Elsewhere: the engine's default (unknown call)."""
+    tgt = getattr(getattr(ex, "contract", None), "target", "") or ""
+    if tgt.endswith(f"{ECLS}.get_text") and len(args) == 3 and not kwargs and all(isinstance(a, VStr) for a in args) \
+            and args[0].const() is not None and args[1].const() is not None and "\\" not in args[1].const():
+        import re as _re
+        try:
+            _re.compile(args[0].const())
+            return [(st, VStr(RE_SUB(args[0].t, args[1].t, args[2].t)))]
+        except Exception:  # noqa
+            pass
+    return ex.havoc_call(st, "re.sub", args, node)
+
+
 def install(reg):
+    reg.ext_models["re.sub"] = m_re_sub_fn
     reg.ext_models["str.lower"] = m_lower
     reg.ext_models["str.split"] = m_split
     reg.ext_models["str.join"] = m_join
     reg.method_models[("HTMLParserBase", "__init__")] = lambda ex, st, obj, a, k, n: [(st, NONE)]
     reg.ext_models["str.lstrip"] = lambda ex, st, args, kwargs, node: [(st, VStr(LSTRIP(args[0].t)))] if len(args) == 1 else \
         [(st, VStr(z3.String(fresh_name("lstrip"))))]
+    try:
+        for nm in get_text_regexes():
+            reg.module_consts[(EPUB, nm)] = VExt("StrRe", z3.Const("regex:" + nm, ext_sort_("StrRe")))
+        reg.method_models[("StrRe", "sub")] = m_re_sub
+    except Exception:  # noqa
+        pass
     if hint_pattern() is not None:
         reg.module_consts[(MSG, hint_regex_name())] = VExt("HintRe")
         reg.method_models[("HintRe", "search")] = m_hint_search
@@ -781,6 +943,37 @@ def epub_inv(c, rho, st=None):
     return coupling(sd.t, d.get(tf, MISSING) if tf else MISSING, rho)
 
 
+EPUB_SINKS = ("text_parts", "_current_cell", "_title")
+
+
+def str_leaves(t, acc=None):
+    """Uninterpreted String constants a term is built from (string literals are not leaves)."""
+    acc = set() if acc is None else acc
+    if z3.is_const(t):
+        if t.decl().kind() == z3.Z3_OP_UNINTERPRETED and t.sort() == S:
+            acc.add(t)
+        return acc
+    for ch in t.children():
+        str_leaves(ch, acc)
+    return acc
+
+
+def get_text_whole(c):
+    if getattr(c.ex, "entry_ctx", None) is None or c.args is not c.ex.entry_ctx.args:
+        return z3.BoolVal(True)            # at a call site: nothing to add (the clause inspects the body's own result term)
+    r = c.result
+    if not isinstance(r, VStr):
+        return z3.BoolVal(False)
+    tp = c.entry.obj(c.args["self"].ref).data.get(EPUB_SINKS[0])
+    o = c.entry.heap.get(tp.ref) if isinstance(tp, VRef) else None
+    if o is None or o.kind != "olist":
+        raise Unsupported("the list of stored parts was not found (renamed?)")
+    good = [j for j in c.st.ghost.get("joins", ())
+            if j[1] == tp.ref and j[2].eq(o.data["blen"]) and j[3] == tuple(o.data["tail"]) and j[4] is not None and j[4].strip() == ""]
+    lv = str_leaves(r.t)
+    return z3.BoolVal(len(lv) == 1 and any(j[0].eq(next(iter(lv))) for j in good))
+
+
 def html_requires(c):
     d = c.st.obj(c.args["self"].ref).data
     r = need(HTML, HCLS, c.ex.module.repo, "depth", "root", "stack", "last")
@@ -825,7 +1018,6 @@ def html_data_stored(c):
     return b.t == z3.Concat(a.t, c.args["data"].t)
 
 
-EPUB_SINKS = ("text_parts", "_current_cell", "_title")
 
 
 def epub_data_stored(c):
@@ -932,6 +1124,17 @@ def contracts(reg):
                     isinstance(c.result, VRef) and c.result.ref == c.entry.obj(c.args["self"].ref).data[need(HTML, HCLS, c.ex.module.repo, "root")["root"]].ref)),
                  ("pure", lambda c: frame(c, ()))],
         modifies=("self",),
+    ))
+    # round 7: EPUB get_text (the observation point "chapter text") under a symbolic contract -- total, pure, and its result is a
+    # function of the join of the WHOLE list of stored parts (not a slice / filter of it) and of nothing else
+    out.append(FnContract(
+        target=f"{EPUB}::{ECLS}.get_text",
+        params=[("self", epub_self())] + GHOST,
+        requires=lambda c: epub_inv(c, RHO, c.st),
+        ensures=[("I-preserved", lambda c: epub_inv(c, RHO)),
+                 ("pure-(stores-nothing,-a-second-call-gives-the-same-text)", lambda c: frame(c, ())),
+                 ("text-is-a-function-of-the-join-of-the-whole-list-of-stored-parts-and-of-nothing-else", get_text_whole)],
+        modifies=("self",), total=True,
     ))
     out.append(looks_like_html_contract())
     from contracts import C17_glue
@@ -1048,6 +1251,12 @@ def post_report(c, rep):
                 if o["status"] == "refuted":
                     o["status"] = "unknown"
                     o["reason"] = f"{rep.exc_any_sites} unmodelled call(s) were over-approximated in this function: not a definite refutation; " + (o.get("reason") or "")
+    if c.target in (f"{MHTML}::_find_html_part", f"{MHTML}::_decode_content") and getattr(rep, "exc_any_sites", 0):
+        # round 7: definite only when every call on the way had a model (an unmodelled call is over-approximated: any value, may raise)
+        for o in rep.obligations:
+            if o["status"] == "refuted":
+                o["status"] = "unknown"
+                o["reason"] = f"{rep.exc_any_sites} unmodelled call(s) were over-approximated in this function: not a definite refutation; " + (o.get("reason") or "")
     if c.target in _G.TARGETS:
         for o in rep.obligations:
             if o["status"] == "refuted":
@@ -1251,7 +1460,23 @@ TRUSTED = ["html.parser.HTMLParser: feed(text) calls the overridden handlers wit
            "inherited handle_comment/handle_decl/handle_pi/unknown_decl are no-ops",
            "tree walker (_HtmlTextExtractor) emits every stored text/tail and nothing else (C02's obligation, not re-proved here)"]
 ASSUMED_MODELS = ["str.lower (uninterpreted function, shared by spec and code)", "str.split / str.join / str.strip (total, opaque result)",
-                  "html.parser.HTMLParser.__init__ (no effect on subclass fields)", "attrs: list of (str, Optional[str]) pairs"]
+                  "html.parser.HTMLParser.__init__ (no effect on subclass fields)", "attrs: list of (str, Optional[str]) pairs",
+                  "email.message.Message (round 7): get_content_type / is_multipart / walk / get_payload(decode=False) / get(name, '') are total "
+                  "functions of the message object; walk() is a finite sequence; get(name, '') is a str or (non-ASCII value) an email.header.Header "
+                  "object without str methods, str(<Header>) is total",
+                  "re (round 7, inside epub get_text only): <compiled str pattern>.sub(<constant without backslash>, text) and re.sub(<constant "
+                  "pattern re accepts>, <constant>, text) are total functions of the text",
+                  "quopri.decodestring / base64.b64decode (partial functions of the bytes: value or exception), str.encode('utf-8', errors='replace') "
+                  "(total), <whitespace regex>.sub(b'', x) (function of x; the pattern is checked to match whitespace only), "
+                  "bytes slicing / lower / `in` (total, opaque)"]
+# round 7: targets registered twice -- VERIFIED on the real body, and as the abbreviated view their callers use.  Reported as assumed
+# only while an obligation of the verified registration is open (pyvc/check.py, key `call_site_views_of_verified_contracts`).
+CALL_SITE_VIEWS = {
+    f"{MHTML}::_find_html_part": "view of _extract_from_mhtml: `mime_has_html_part(msg)` / `mime_html_part(msg)` -- the verified clause makes the result a "
+                                 "function of the MIME view of msg (first text/html part in walk order, decoded completely; else the sniffed single body; else None)",
+    f"{MHTML}::_decode_content": "view of _find_html_part: `mime_decoded_content(part)`, total -- abbreviates the verified case analysis "
+                                 "(payload kind x transfer encoding; the raises obligation of the verified registration is discharged)",
+}
 ASSUMPTIONS = ["PY-STR", "PY-EXC", "PY-ALIAS: last_closed is None, the root, or a node distinct from the materialised stack top",
                "TREE-FINITE", "lists of symbolic length are modelled as abstract prefix + appended tail; only append/pop/[-1]/len/truth are in the subset",
                "call-site obligations are syntactic shape checks (back end 'dataflow', UNDECIDED when the shape is not recognised)"]
